@@ -295,7 +295,12 @@ pub fn cmd_comp(a: &Args) {
     for (po, bs, warm, p, q, r, why) in res_args {
         o.classes.insert(format!("residual/{why}/{po}/{}", bs.min(70000)));
         let desc = format!("Residual::new(order={po}, block={bs}, warmup={warm}, {} params, {} quotients, {} remainders) [{why}]", p.len(), q.len(), r.len());
-        o.observe("residual", desc, bs, 0, warm, json!(why), || Residual::new(po, bs, warm, &p, &q, &r), |b| {
+        let vals: Vec<i64> = if bs <= 600 && p.len() == (1usize << po.min(20)) && q.len() == bs && r.len() == bs && bs % p.len() == 0 && p.iter().all(|x| *x <= 14) && q.iter().all(|x| *x < (1 << 15)) {
+            let plen = bs / p.len();
+            (warm.min(bs)..bs).map(|t| { let u = ((q[t] as i64) << p[t / plen]) | r[t] as i64; if u % 2 == 0 { u / 2 } else { -((u + 1) / 2) } }).collect()
+        } else { vec![] };
+        let check_vals = !vals.is_empty();
+        o.observe("residual", desc, bs, 0, warm, json!({"why": why, "vals": vals, "check": check_vals}), || Residual::new(po, bs, warm, &p, &q, &r), |b| {
             parser::residual::<NomErr>(bs, warm)((b, 0)).ok().map(|(_, x)| dbg_and_bytes(&x))
         });
     }
@@ -310,7 +315,18 @@ pub fn cmd_comp(a: &Args) {
         (coef(2), 2, -1, 7), (coef(2), 2, -16, 7), (coef(2), 2, -128, 7), (coef(2), 2, 16, 7), (coef(2), 2, 127, 7),
         (coef(2), 2, 0, 0), (coef(2), 2, 0, 1), (coef(2), 2, 0, 16), (coef(2), 2, 0, 100), (coef(2), 2, 0, big),
         (vec![100, -100], 2, 0, 3), (vec![i16::MAX, i16::MIN], 2, 0, 15), (vec![i16::MAX, i16::MIN], 2, 0, 16),
-    ] {
+    ]
+    .into_iter()
+    .chain((1usize..=15).flat_map(|p| {
+        // coefficients at and just beyond both ends of the two's-complement range of every precision
+        let hi = (1i32 << (p - 1)) - 1;
+        let lo = -(1i32 << (p - 1));
+        let c = |x: i32| x.clamp(i16::MIN as i32, i16::MAX as i32) as i16;
+        vec![
+            (vec![c(hi), c(lo)], 2usize, 1i8, p), (vec![c(hi + 1)], 1, 0, p), (vec![c(lo - 1)], 1, 0, p),
+            (vec![0, c(hi + 1), 0], 3, 2, p), (vec![c(lo)], 1, 15, p),
+        ]
+    })) {
         o.classes.insert(format!("qlp/{}/{}/{}/{}", coefs.len().min(41), order.min(101), shift, prec.min(101)));
         let desc = format!("QuantizedParameters::new({} coefs, order={order}, shift={shift}, precision={prec})", coefs.len());
         let id = format!("qlp-{}", o.n);
@@ -343,7 +359,7 @@ pub fn cmd_comp(a: &Args) {
                 }
                 o.classes.insert(format!("constant/{}/{}", bs.min(65537), bps.min(65)));
                 let desc = format!("Constant::new(block={bs}, dc={dc}, bps={bps})");
-                o.observe("constant", desc, bs.min(70000), bps.min(1000), 0, json!(0), || Constant::new(bs, dc, bps), parse_sub(bs, bps));
+                o.observe("constant", desc, bs.min(70000), bps.min(1000), 0, json!({"dc": dc}), || Constant::new(bs, dc, bps), parse_sub(bs, bps));
             }
         }
     }
@@ -366,7 +382,7 @@ pub fn cmd_comp(a: &Args) {
                 }
                 o.classes.insert(format!("verbatim/{}/{}/{why}", len, bps.min(65)));
                 let desc = format!("Verbatim::new({len} samples [{why}], bps={bps})");
-                o.observe("verbatim", desc, len, bps.min(1000), 0, json!(why), || Verbatim::new(&s, bps), parse_sub(len, bps));
+                o.observe("verbatim", desc, len, bps.min(1000), 0, json!({"why": why, "samples": if len <= 300 { s.clone() } else { vec![] }, "check": len <= 300}), || Verbatim::new(&s, bps), parse_sub(len, bps));
             }
         }
     }
@@ -388,7 +404,7 @@ pub fn cmd_comp(a: &Args) {
                     let warm: Vec<i32> = (0..wl).map(|i| ((i as i64 * 31337) % (2 * hi + 1) - hi) as i32).collect();
                     o.classes.insert(format!("fixed/{bs}/{wl}/{rw}/{bps}"));
                     let desc = format!("FixedLpc::new({wl} warm-up samples, residual(block={bs}, warmup={rw}), bps={bps})");
-                    o.observe("fixed", desc, bs, bps, wl, json!({"res_warm": rw}), || FixedLpc::new(&warm, res, bps), parse_sub(bs, bps));
+                    o.observe("fixed", desc, bs, bps, wl, json!({"res_warm": rw, "warm": warm}), || FixedLpc::new(&warm, res, bps), parse_sub(bs, bps));
                 }
             }
         }
@@ -407,7 +423,8 @@ pub fn cmd_comp(a: &Args) {
                     o.classes.insert(format!("lpc/{}/{}/{wl}/{rw}", q.order(), q.precision()));
                     let desc = format!("Lpc::new({wl} warm-up samples, parameters(order={}, shift={}, precision={}), residual(block={bs}, warmup={rw}), bps={bps})", q.order(), q.shift(), q.precision());
                     let qc = q.clone();
-                    o.observe("lpc", desc, bs, bps, wl, json!({"res_warm": rw, "qorder": q.order(), "prec": q.precision()}), || Lpc::new(&warm, qc, res, bps), parse_sub(bs, bps));
+                    let coefs: Vec<i16> = (0..q.order()).map(|i| q.coefficient(i).unwrap_or(0)).collect();
+                    o.observe("lpc", desc, bs, bps, wl, json!({"res_warm": rw, "qorder": q.order(), "prec": q.precision(), "shift": q.shift(), "coefs": coefs, "warm": warm}), || Lpc::new(&warm, qc, res, bps), parse_sub(bs, bps));
                 }
             }
         }
